@@ -65,11 +65,14 @@ package diagnostic
 //@ method go/ast.Node End fn
 //@ method go/ast.Node Pos fn
 
-//@ -- C14: mapping a package-independent position back into the local file set. A "fake" file (created here for a
-//@ -- transitively imported package, or injected by the archive importer) has one line per offset: lines[k] == k,
-//@ -- and room for 64K lines, so padding it up to the reported line always succeeds and the result is the start of
-//@ -- exactly that line.
-//@ define (fakeOK f) (and (not (= f nil)) (= f.size 65536) (>= (len f.lines) 1) (<= (len f.lines) 65536)
+//@ -- C14 / C07: mapping a package-independent position back into the local file set. A "fake" file (created here
+//@ -- for a transitively imported package, or injected by the archive importer) has one line per offset:
+//@ -- lines[k] == k, and (as every token.File) no more lines than bytes.  For EVERY non-negative line number - also one
+//@ -- beyond the size of the fake file, and 0 (a position without line information) - toPos returns without panicking
+//@ -- (C07: a panic here turns the whole package into an INTERNAL PANIC diagnostic; defect F12), and whenever the fake
+//@ -- file can hold the line (1 <= line <= size; always so for files created here) the result is the start of exactly
+//@ -- that line.
+//@ define (fakeOK f) (and (not (= f nil)) (>= f.size 0) (<= (len f.lines) f.size)
 //@    (forall ((k Int)) (=> (and (<= 0 k) (< k (len f.lines))) (= (idx f.lines k) k))))
 //@ define (filesOK e) (and (not (= e.files nil))
 //@    (forall ((n Str)) (=> (mapin e.files n)
@@ -78,17 +81,20 @@ package diagnostic
 //@       (not (= (s.arr (. (mapget e.files n1) file lines)) (s.arr (. (mapget e.files n2) file lines)))))))
 
 //@ func (*Engine).toPos
-//@ prop C14
+//@ prop C14 C07
 //@ nopanic
-//@ requires (and (not (= e nil)) (not (= e.pass nil)) (not (= e.pass.Pass nil)) (not (= e.pass.Fset nil)) (filesOK e) (>= position.Line 1) (< position.Line 65536))
+//@ requires (and (not (= e nil)) (not (= e.pass nil)) (not (= e.pass.Pass nil)) (not (= e.pass.Fset nil)) (filesOK e) (>= position.Line 0))
 //@ modifies (map e.files) token.File token.FileSet []int
 //@ ensures fake-files-resolve-to-the-start-of-the-reported-line (let ((info (mapget e.files position.Filename)))
 //@    (and (mapin e.files position.Filename)
-//@         (=> (. info isFake) (and (>= (len (. info file lines)) position.Line) (= result (+ (. info file base) (- position.Line 1)))))))
+//@         (=> (and (. info isFake) (>= position.Line 1) (<= position.Line (. info file size)))
+//@             (and (>= (len (. info file lines)) position.Line) (= result (+ (. info file base) (- position.Line 1)))))))
+//@ ensures files-created-here-hold-the-reported-line (=> (not (old (mapin e.files position.Filename))) (>= (. (mapget e.files position.Filename) file size) position.Line))
 //@ ensures file-table-stays-consistent (filesOK e)
 //@ loop 0 invariant filling (forall ((k Int)) (=> (and (<= 0 k) (<= k rangeindex)) (= (idx fakeLines k) k)))
 //@ loop 0 invariant shape (and (= (len fakeLines) position.Line) (fresh (s.arr fakeLines)) (<= -1 rangeindex) (< rangeindex (len fakeLines)) (filesOK e) (not (mapin e.files position.Filename)))
-//@ loop 1 invariant padding (and (filesOK e) (mapin e.files position.Filename) (= (mapget e.files position.Filename) info) (. info isFake) (fakeOK (. info file)) (= i (len (. info file lines))))
+//@ loop 1 invariant padding (and (filesOK e) (mapin e.files position.Filename) (= (mapget e.files position.Filename) info) (. info isFake) (fakeOK (. info file))
+//@    (= (len (. info file lines)) (ite (< i (. info file size)) i (. info file size))))
 
 //@ -- C14: an over-constraint conflict is reported at the position of the LAST reason of the non-nil chain (the point
 //@ -- of dereference), exactly one conflict is appended, earlier conflicts are untouched.  The chain is walked through
